@@ -179,7 +179,7 @@ class PolyInterp:
         if k == "undef":
             return Poly.atom("UNDEF")
         if k == "cf":
-            return Poly.atom("F(%s)" % o["hex"])
+            return Poly.atom("F(%r)" % float.fromhex(o["hex"]))
         if k == "g":
             if o.get("const") and o.get("init"):
                 self.globals["@" + o["name"]] = (o["init"], o.get("elt_bits", 0))
@@ -687,6 +687,13 @@ class PolyInterp:
                 self.val[i] = Poly.atom("LP")
         elif op in ("fadd", "fsub", "fmul", "fdiv", "frem", "fneg", "sitofp", "uitofp", "fptosi", "fptoui", "fpext", "fptrunc"):
             args = [self.operand(o) for o in ops]
+            if op in ("sitofp", "uitofp") and args[0].is_const():
+                import struct as _st
+                v = float(args[0].const_value())
+                if inst["type"].get("bits") == 32:
+                    v = _st.unpack("f", _st.pack("f", v))[0]
+                self.val[i] = Poly.atom("F(%r)" % v)
+                return
             if op in ("fadd", "fmul"):
                 args = sorted(args, key=repr)
             self.val[i] = self.fn_atom(op.upper() + str(inst["type"].get("bits", "")), *args)
